@@ -330,3 +330,27 @@ func (c *Cont) SortedLeafNames() []string {
 	sort.Strings(names)
 	return names
 }
+
+// ChosenCases lists "path:choice=case" for every choice that has data in c (recursively);
+// used by harnesses to measure how often an edit switches cases.
+func (c *Cont) ChosenCases(s *SNode, path string, out map[string]int) {
+	for _, kid := range s.Kids {
+		if !c.has(kid.Name) {
+			continue
+		}
+		for _, g := range kid.Guard {
+			key := fmt.Sprintf("%s#%d", path, g[0])
+			if old, ok := out[key]; !ok || g[1] < old {
+				out[key] = g[1]
+			}
+		}
+		switch kid.Kind {
+		case KCont:
+			c.Conts[kid.Name].ChosenCases(kid, path+"/"+kid.Name, out)
+		case KList:
+			for i, r := range c.Lists[kid.Name].Rows {
+				r.ChosenCases(kid, fmt.Sprintf("%s/%s[%d]", path, kid.Name, i), out)
+			}
+		}
+	}
+}
